@@ -368,3 +368,41 @@ def _mk_olb(clsname):
 
 olb_fasta, olb_fastq = _mk_olb("TwoLineFastaBuffer"), _mk_olb("FastQBuffer")
 CONTRACTS += [olb_fasta, olb_fastq]
+
+
+# ---- P4: MultiLineFastaBuffer.from_raw_buffer (wrapped FASTA): the cut is at the last '>' that starts a line -------------------------------
+def _MLF():
+    from bionumpy.io.multiline_buffer import MultiLineFastaBuffer
+    return MultiLineFastaBuffer
+
+
+def _setup_mlf(ctx):
+    st = St()
+    st.N = z3.Int("chunk_len")
+    st.c = z3.Function("c", z3.IntSort(), z3.IntSort())
+    st.args = [_MLF(), SArr.fresh(st.N, lambda p: st.c(I(p)))]
+    return st
+
+
+def _entry_start(st, p):
+    """p is the first byte of an entry other than the first: a '>' right after a newline (the newline not being the chunk's last byte)"""
+    return And(I(p) >= 1, I(p) <= st.N - 1, st.c(I(p) - 1) == 10, st.c(I(p)) == 62)
+
+
+def _ens_mlf(ctx, st, ret):
+    data = ret.get("_data")
+    cut = data.length
+    return [("X1: 1 <= size <= |chunk| and data handed on is chunk[:size]", And(I(cut) >= 1, I(cut) <= st.N - 1)),
+            ("X1: content", Forall(lambda p: Implies(in_range(p, cut), data.at(p) == st.c(p)))),
+            ("cut.is.an.entry.start", _entry_start(st, cut)),
+            ("cut.is.the.LAST.entry.start", Forall(lambda p: Implies(I(p) > I(cut), Not(_entry_start(st, p)))))]
+
+
+mlf_from_raw_buffer = Contract("C01.MultiLineFastaBuffer.from_raw_buffer", target=lambda: _MLF().from_raw_buffer.__func__, setup=_setup_mlf,
+                               requires=lambda ctx, st: [st.N >= 1, st.c(0) == 62, Forall(lambda p: And(st.c(p) >= 0, st.c(p) < 256), triggers=[st.c], name="bytes")],
+                               ensures=_ens_mlf, hints=lambda ctx, st, ks: [I(k) - 1 for k in ks[:1]],
+                               raises={"RuntimeError": lambda ctx, st: [("only.when.no.second.entry.starts.in.the.chunk", Forall(lambda p: Not(_entry_start(st, p))))]},
+                               decorators={"@classmethod": "receiver is the class"}, dropped=["exception message"],
+                               canaries=[("first entry start instead of the last", "cut_chunk = chunk[:entry_starts[-1]]", "cut_chunk = chunk[:entry_starts[0]]"),
+                                         ("cut after the marker", "entry_starts = new_lines[new_entries]+1", "entry_starts = new_lines[new_entries]+2")])
+CONTRACTS.append(mlf_from_raw_buffer)
